@@ -330,6 +330,18 @@ type reqOpt struct {
 	unknownCL bool
 	remote    string
 	chunkRead int // >0: the body is delivered in reads of at most this many bytes (as from a network connection)
+	truncate  bool // the transfer breaks off after half of the body (the reader returns io.ErrUnexpectedEOF)
+}
+
+// brokenReader delivers its bytes and then fails the way net/http does when a client stops sending.
+type brokenReader struct{ r io.Reader }
+
+func (b *brokenReader) Read(p []byte) (int, error) {
+	n, err := b.r.Read(p)
+	if err == io.EOF {
+		err = io.ErrUnexpectedEOF
+	}
+	return n, err
 }
 
 // slowReader hands out at most n bytes per Read and hides WriterTo, so that io.Copy on the server side takes
@@ -355,6 +367,9 @@ func doReq(h http.Handler, method, url string, body []byte, o *reqOpt) (r resp) 
 	}
 	if o != nil && o.chunkRead > 0 && rdr != nil {
 		rdr = &slowReader{r: rdr, n: o.chunkRead}
+	}
+	if o != nil && o.truncate && len(body) > 0 {
+		rdr = &brokenReader{r: bytes.NewReader(body[:len(body)/2])}
 	}
 	var req *http.Request
 	func() {
